@@ -47,12 +47,16 @@ var solvers = []solverSpec{
 }
 
 func runSolver(sp solverSpec, script string, dir string, name string, timeoutMs int) (string, string, int64) {
+	return runSolverCtx(context.Background(), sp, script, dir, name, timeoutMs)
+}
+
+func runSolverCtx(parent context.Context, sp solverSpec, script string, dir string, name string, timeoutMs int) (string, string, int64) {
 	file := filepath.Join(dir, name+"."+sp.name+".smt2")
 	if err := os.WriteFile(file, []byte(sp.prep(script)), 0o644); err != nil {
 		return "error", err.Error(), 0
 	}
 	args := sp.cmd(file, timeoutMs)
-	ctx, cancel := context.WithTimeout(context.Background(), time.Duration(timeoutMs+2000)*time.Millisecond)
+	ctx, cancel := context.WithTimeout(parent, time.Duration(timeoutMs+2000)*time.Millisecond)
 	defer cancel()
 	t0 := time.Now()
 	cmd := exec.CommandContext(ctx, args[0], args[1:]...)
@@ -110,43 +114,69 @@ func Solve(script string, workDir string, name string, timeoutMs int, thorough b
 	}
 	var unsatBy, satBy string
 	var satOut string
-	type attempt struct {
-		sp solverSpec
-		t  int
+	// the solvers race on the same query; the first definitive answer wins (thorough tier: two different solvers must
+	// have answered whenever two terminate)
+	type answer struct {
+		sp  solverSpec
+		st  string
+		out string
+		ms  int64
 	}
-	short := timeoutMs / 5
-	if short > 2000 {
-		short = 2000
+	ctx, cancelAll := context.WithCancel(context.Background())
+	racers := []solverSpec{solvers[0], solvers[1], solvers[2]}
+	ch := make(chan answer, len(racers))
+	for _, sp := range racers {
+		sp := sp
+		go func() {
+			st, out, ms := runSolverCtx(ctx, sp, full, workDir, safe, timeoutMs)
+			ch <- answer{sp, st, out, ms}
+		}()
 	}
-	plan := []attempt{{solvers[0], short}, {solvers[1], short}, {solvers[0], timeoutMs}, {solvers[1], timeoutMs}, {solvers[2], timeoutMs}, {solvers[3], timeoutMs}}
 	consulted := map[string]bool{}
-	for _, at := range plan {
-		sp := at.sp
-		st, out, ms := runSolver(sp, full, workDir, safe, at.t)
-		res.Tried = append(res.Tried, fmt.Sprintf("%s:%s:%dms", sp.name, st, ms))
-		res.Ms += ms
-		switch st {
+	pending := len(racers)
+	for pending > 0 {
+		a := <-ch
+		pending--
+		if ctx.Err() != nil && a.st != "unsat" && a.st != "sat" {
+			continue // cancelled loser
+		}
+		res.Tried = append(res.Tried, fmt.Sprintf("%s:%s:%dms", a.sp.name, a.st, a.ms))
+		if a.ms > res.Ms {
+			res.Ms = a.ms
+		}
+		switch a.st {
 		case "unsat":
 			if unsatBy == "" {
-				unsatBy = sp.name
+				unsatBy = a.sp.name
 			}
-			consulted[sp.name] = true
+			consulted[a.sp.name] = true
 		case "sat":
 			if satBy == "" {
-				satBy = sp.name
-				satOut = out
+				satBy, satOut = a.sp.name, a.out
 			}
-			consulted[sp.name] = true
+			consulted[a.sp.name] = true
 		case "error":
 			if res.Output == "" {
-				res.Output = sp.name + ": " + firstLines(out, 5)
+				res.Output = a.sp.name + ": " + firstLines(a.out, 5)
 			}
 		}
 		if !thorough && (unsatBy != "" || satBy != "") {
 			break
 		}
 		if thorough && len(consulted) >= 2 {
-			break // two different solvers have answered
+			break
+		}
+	}
+	cancelAll()
+	if unsatBy == "" && satBy == "" {
+		// last resort: enumerative instantiation
+		st, out, ms := runSolver(solvers[3], full, workDir, safe, timeoutMs)
+		res.Tried = append(res.Tried, fmt.Sprintf("%s:%s:%dms", solvers[3].name, st, ms))
+		res.Ms += ms
+		if st == "unsat" {
+			unsatBy = solvers[3].name
+		} else if st == "sat" {
+			satBy, satOut = solvers[3].name, out
 		}
 	}
 	if unsatBy == "" && satBy == "" && !noHint && len(values) > 0 {
